@@ -1,6 +1,8 @@
 package main
 
 import (
+	"fmt"
+	"os"
 	"go/types"
 
 	"golang.org/x/tools/go/ssa"
@@ -94,4 +96,95 @@ func nodeStatesInParallelModel(f *Frame, ins ssa.Instruction, call *ssa.CallComm
 		f.root.hyps = append(f.root.hyps, tImp(st.pc, mkQuant("forall", []BVar{bq}, body)))
 	}
 	return res
+}
+
+// syncMapLoadModel: (*sync.Map).Load through a struct field. Closed-world fact derived from the source on every run:
+// if every Store / LoadOrStore / Swap / CompareAndSwap through that field in the repository stores a value of one
+// static type T, a successful Load yields a value of dynamic type T.
+func syncMapLoadModel(f *Frame, ins ssa.Instruction, call *ssa.CallCommon, ct *callTarget, st *State) Value {
+	v := f.havocTyped(st, types.NewInterfaceType(nil, nil), "smload").(*Term)
+	ok := fresh("smok", sortBool)
+	res := &Tuple{Elems: []Value{v, ok}}
+	fa, isFA := call.Args[0].(*ssa.FieldAddr)
+	if !isFA {
+		return res
+	}
+	T, n := f.eng.syncMapStoredType(fa)
+	if os.Getenv("GOVC_DEBUG") != "" {
+		fmt.Fprintln(os.Stderr, "DEBUG syncmap", T, n)
+	}
+	if T == nil {
+		return res
+	}
+	f.addHyp(st.pc, tImp(ok, tAnd(tNot(tEq(v, tInt(0))), tEq(f.itag(v), tInt(f.eng.typeTag(T))))))
+	f.root.notes[fmt.Sprintf("closed world: every value stored into the sync.Map field %s.%s has type %s (%d store sites scanned in the repository)", fa.X.Type().String(), fieldName(fa), T.String(), n)] = true
+	return res
+}
+
+func fieldName(fa *ssa.FieldAddr) string {
+	if pt, ok := fa.X.Type().Underlying().(*types.Pointer); ok {
+		if stt, ok := pt.Elem().Underlying().(*types.Struct); ok {
+			return stt.Field(fa.Field).Name()
+		}
+	}
+	return "?"
+}
+
+func (e *Engine) syncMapStoredType(fa *ssa.FieldAddr) (types.Type, int) {
+	var T types.Type
+	n := 0
+	bad := false
+	for _, fn := range e.fnByName {
+		if fn == nil || !isRepoFn(fn) {
+			continue
+		}
+		for _, b := range fn.Blocks {
+			for _, ins := range b.Instrs {
+				c, ok := ins.(ssa.CallInstruction)
+				if !ok {
+					continue
+				}
+				cc := c.Common()
+				callee := cc.StaticCallee()
+				if callee == nil || callee.Signature.Recv() == nil || len(cc.Args) < 3 {
+					continue
+				}
+				if callee.Signature.Recv().Type().String() != "*sync.Map" {
+					continue
+				}
+				switch callee.Name() {
+				case "Store", "LoadOrStore", "Swap", "CompareAndSwap":
+				default:
+					continue
+				}
+				rfa, ok := cc.Args[0].(*ssa.FieldAddr)
+				if !ok {
+					bad = true // a sync.Map reached through something else than a field: cannot attribute
+					continue
+				}
+				if rfa.Field != fa.Field || !types.Identical(rfa.X.Type(), fa.X.Type()) {
+					continue
+				}
+				val := cc.Args[len(cc.Args)-1]
+				if callee.Name() == "Store" || callee.Name() == "LoadOrStore" || callee.Name() == "Swap" {
+					val = cc.Args[2]
+				}
+				mi, ok := val.(*ssa.MakeInterface)
+				if !ok {
+					bad = true
+					continue
+				}
+				n++
+				if T == nil {
+					T = mi.X.Type()
+				} else if !types.Identical(T, mi.X.Type()) {
+					bad = true
+				}
+			}
+		}
+	}
+	if bad {
+		return nil, n
+	}
+	return T, n
 }
